@@ -134,18 +134,19 @@ pub(crate) fn eval_expr(ctx: &Context, expr: &Expr) -> Result<Value, QueryError>
                         expr.show(ctx)
                     )))
                 } else {
-                    let expr = (&expr
-                        * &ctx
-                            .lookup(scale)
-                            .expect(&*format!("Missing {} unit", scale)))
-                        .unwrap();
-                    Ok(Value::Number(
-                        (&expr
-                            + &ctx
-                                .lookup(base)
-                                .expect(&*format!("Missing {} constant", base)))
-                            .unwrap(),
-                    ))
+                    // The database that is loaded may lack these units (a
+                    // user's own file, a file that failed to load), or
+                    // define them with other dimensions.
+                    let scale = ctx.lookup(scale).ok_or_else(|| ctx.unknown_unit_err(scale))?;
+                    let base = ctx.lookup(base).ok_or_else(|| ctx.unknown_unit_err(base))?;
+                    let expr = (&expr * &scale).unwrap();
+                    (&expr + &base).map(Value::Number).ok_or_else(|| {
+                        QueryError::generic(format!(
+                            "Temperature scale is not defined consistently: <{}> + <{}>",
+                            expr.show(ctx),
+                            base.show(ctx)
+                        ))
+                    })
                 }
             }
         },
@@ -1137,20 +1138,23 @@ pub(crate) fn eval_query(ctx: &Context, expr: &Query) -> Result<QueryReply, Quer
                     )))
                 }
             };
-            let bottom = ctx
-                .lookup(scale)
-                .expect(&*format!("Unit {} missing", scale));
+            let bottom = ctx.lookup(scale).ok_or_else(|| ctx.unknown_unit_err(scale))?;
             if top.unit != bottom.unit {
                 Err(QueryError::Conformance(Box::new(conformance_err(
                     ctx, top, &bottom,
                 ))))
             } else {
-                let res = (top
-                    - &ctx
-                        .lookup(base)
-                        .expect(&*format!("Constant {} missing", base)))
-                    .unwrap();
-                let res = (&res / &bottom).unwrap();
+                let base = ctx.lookup(base).ok_or_else(|| ctx.unknown_unit_err(base))?;
+                let res = (top - &base).ok_or_else(|| {
+                    QueryError::generic(format!(
+                        "Temperature scale is not defined consistently: <{}> - <{}>",
+                        top.show(ctx),
+                        base.show(ctx)
+                    ))
+                })?;
+                let res = (&res / &bottom).ok_or_else(|| {
+                    QueryError::generic(format!("Division by zero: <{}>", bottom.show(ctx)))
+                })?;
                 let mut name = BTreeMap::new();
                 name.insert(deg.to_string(), 1);
                 Ok(QueryReply::Conversion(Box::new(ctx.show(
